@@ -283,6 +283,22 @@ func c09PubsubOne(c *vf.Ctx, sub string, i int, r *rand.Rand) string {
 			}
 			c.Inc("pubsub_bursts_delivered_to_a_late_consumer")
 		}
+		// (a3) a plain announcement published on B's own host and topic (an indexer that also publishes): it is not a
+		// republication of B's, its source (B's host) passes B's filter in every mode but "only-relay"/"only-original"
+		// where the filter names other peers, so it is judged like any other announcement
+		if sndB, err := p2psender.New(nil, "", p2psender.WithTopic(topics[2])); err == nil {
+			cidOwn := c09Cid(750000 + i)
+			mo := message.Message{Cid: cidOwn}
+			mo.SetAddrs([]multiaddr.Multiaddr{pubAddr})
+			if err := sndB.Send(context.Background(), mo); err == nil && bAllow(hB.ID()) {
+				if _, got := waitFor(colB, 20*time.Second, func(a announce.Announce) bool { return a.Cid.Equals(cidOwn) }); !got {
+					c.Fail(sub, i, "announcement-published-on-the-receivers-own-host-not-delivered", "a plain (not republished) announcement from the receiver's own host, allowed by its filter, never reached its consumer", wit())
+					return
+				}
+				c.Inc("own_host_plain_announcements_delivered")
+			}
+			sndB.Close()
+		}
 		// (b) a direct announcement at the relay R for publisher P
 		cid2 := c09Cid(720000 + i)
 		if err := rcR.Direct(context.Background(), cid2, peer.AddrInfo{ID: P.ID, Addrs: []multiaddr.Multiaddr{pubAddr, privAddr}}); err != nil {
